@@ -849,7 +849,11 @@ def run_c03(ctx):
         for name, s_or_exc, kw in built:
             if not isinstance(s_or_exc, Exception):
                 record(s_or_exc, {}, "scenario")
-        # (d): overloaded systems must raise or return a physical converged state
+        # (d): overloaded systems must raise or return a physical converged state: one fixed system per series element that
+        # can give way (harness/scenarios.py), then generated ones
+        for name, s_or_exc, kw in scenarios.overloads():
+            if not isinstance(s_or_exc, Exception):
+                record(s_or_exc, {}, "overload")
         for _ in range(n_over):
             st = next(it, None)
             if st is None:
